@@ -41,6 +41,22 @@ build $MODE
 if [ "${1:-}" = "--replay" ]; then
   exec "$BIN" replay -file "$2"
 fi
+if [ "$ID" = C06 ] && [ "${VERIF_NO_FUZZ:-0}" != 1 ]; then
+  # coverage-guided stage: go's native fuzzing engine over the same monitors (harness/fuzzq).
+  # The budget is a number of executions, not a time; the wall-clock limit is only a watchdog.
+  FZ="$WORK/C06-$TIER${VERIF_WORK_SUFFIX:-}.fuzz"
+  rm -rf "$FZ"; mkdir -p "$FZ"
+  FZBIN="$WORK/bin/fuzzq$(echo "$REPO" | tr '/' '_').test"
+  if ( cd "$VERIF/harness" && go test -tags verif -modfile="$WORK/mod/go.$(echo "$REPO" | tr '/' '_').mod" -c -fuzz FuzzStatement -o "$FZBIN" ./fuzzq ) 2> "$FZ/build.log"; then
+    execs=300000; limit=600
+    [ "$TIER" = thorough ] && { execs=30000000; limit=3600; }
+    execs=${VERIF_FUZZ_EXECS:-$execs}
+    ( cd "$FZ" && timeout -s QUIT $limit "$FZBIN" -test.run '^$' -test.fuzz FuzzStatement -test.fuzztime "${execs}x" -test.parallel "${VERIF_FUZZ_PAR:-12}" -test.fuzzcachedir "$FZ/cache" > "$FZ/log" 2>&1; echo "exit=$?" > "$FZ/exit" )
+  else
+    echo "exit=build-failed" > "$FZ/exit"
+  fi
+  export VERIF_FUZZ_DIR="$FZ"
+fi
 if [ "$ID" = C19 ]; then
   export VERIF_RACE_DIR="$WORK/C19-$TIER${VERIF_WORK_SUFFIX:-}.race"
   export GORACE="halt_on_error=0 log_path=$VERIF_RACE_DIR/race"
